@@ -163,9 +163,17 @@ def warm(extra=None):
             if extra:
                 extra()
             sigs = {}
+            from numba.core import types as _nbt
+
             for key, disp in find_dispatchers().items():
                 if disp.signatures:
-                    sigs[key] = list(disp.signatures)
+                    lst = []
+                    for sg in disp.signatures:
+                        if any(isinstance(t, _nbt.Dispatcher) for t in sg):
+                            lst.append(_describe_sig(sg))
+                        else:
+                            lst.append(sg)
+                    sigs[key] = lst
             data = pickle.dumps(sigs)
             with os.fdopen(w, "wb") as f:
                 f.write(data)
@@ -188,11 +196,94 @@ def warm(extra=None):
             continue
         for sig in lst:
             try:
-                d.compile(sig)
+                if isinstance(sig, list):
+                    # kernel taking a jitted function: its dispatcher type does not survive pickling, so the
+                    # specialisation is created by one direct call on dummy arrays (no Pandora Python state involved)
+                    d(*_dummy_args(sig, disps))
+                else:
+                    d.compile(sig)
                 n += 1
+            except RuntimeError:
+                pass  # explicitly typed kernels are compiled at import ("compilation disabled")
             except Exception:
-                pass
+                traceback.print_exc()
     return n
+
+
+def warm_refinement_variants():
+    """Direct dummy calls of loop_refinement for the argument-type combinations pipelines produce (parent side)."""
+    import numpy as np
+    from pandora.refinement.refinement import AbstractRefinement
+    from pandora.refinement.vfit import Vfit
+    from pandora.refinement.quadratic import Quadratic
+
+    n = 0
+    for meth in (Vfit.refinement_method, Quadratic.refinement_method):
+        for layout in ("C", "F"):
+            for dm in (0, 0.0):
+                for mdt in (np.int64,):
+                    cv = np.zeros((3, 3, 3), dtype=np.float32)
+                    if layout == "F":
+                        cv = np.asfortranarray(cv)
+                    before = len(AbstractRefinement.loop_refinement.signatures)
+                    AbstractRefinement.loop_refinement(
+                        cv, np.zeros((3, 3), np.float32), np.zeros((3, 3), mdt), dm, dm + 1, 1, "min", meth
+                    )
+                    n += len(AbstractRefinement.loop_refinement.signatures) - before
+    return n
+
+
+def _describe_sig(sig):
+    """Picklable description of a signature that contains a dispatcher type."""
+    from numba.core import types
+
+    out = []
+    for t in sig:
+        if isinstance(t, types.Dispatcher):
+            f = t.dispatcher.py_func
+            out.append(("dispatcher", f.__module__, f.__qualname__))
+        elif isinstance(t, types.Array):
+            out.append(("array", str(t.dtype), t.ndim, t.layout, bool(t.mutable)))
+        elif isinstance(t, types.Integer):
+            out.append(("int", str(t)))
+        elif isinstance(t, types.Float):
+            out.append(("float", str(t)))
+        elif isinstance(t, types.UnicodeType):
+            out.append(("str",))
+        elif isinstance(t, types.Boolean):
+            out.append(("bool",))
+        else:
+            out.append(("other", str(t)))
+    return out
+
+
+def _dummy_args(desc, disps):
+    import numpy as np
+
+    args = []
+    for d in desc:
+        if d[0] == "dispatcher":
+            args.append(disps[(d[1], d[2])])
+        elif d[0] == "array":
+            a = np.zeros((3,) * d[2], dtype=np.dtype(d[1]))
+            if d[3] == "F":
+                a = np.asfortranarray(a)
+            elif d[3] == "A":
+                a = np.zeros((6,) * d[2], dtype=np.dtype(d[1]))[(slice(None, None, 2),) * d[2]]
+            if not d[4]:
+                a.flags.writeable = False
+            args.append(a)
+        elif d[0] == "int":
+            args.append(1 if d[1] in ("int64", "intp") else np.dtype(d[1]).type(1))
+        elif d[0] == "float":
+            args.append(1.0 if d[1] == "float64" else np.dtype(d[1]).type(1))
+        elif d[0] == "str":
+            args.append("min")
+        elif d[0] == "bool":
+            args.append(False)
+        else:
+            raise ValueError(f"cannot build dummy for {d}")
+    return args
 
 
 # ---------------------------------------------------------------------------------------------------------------
@@ -206,7 +297,15 @@ class ChildFailure(Exception):
 def _child_main(check, scenario, wfd):
     try:
         try:
+            before = {k: len(d.signatures) for k, d in find_dispatchers().items()}
             res = check.execute(scenario)
+            cold = {}
+            for k, d in find_dispatchers().items():
+                if len(d.signatures) > before.get(k, 0):
+                    cold["cold_compile:" + k[1]] = len(d.signatures) - before.get(k, 0)
+            if cold and isinstance(res, dict):
+                res.setdefault("cov", {}).update(cold)
+                res["cold_sigs"] = [str(sg) for k, d in find_dispatchers().items() for sg in d.signatures[before.get(k, 0):]]
         except BaseException as e:  # harness-level failure inside the child
             res = {"harness_error": f"{type(e).__name__}: {e}", "trace": traceback.format_exc()[-3000:]}
         data = jdump(res).encode()
@@ -510,6 +609,8 @@ def main(check, check_file):
 
     print(f"[{check.prop}] seed={seed} tier={tier} workers={workers} tree={boot.info().get('tree_hash')}", flush=True)
     nwarm = warm(getattr(check, "warm_extra", None))
+    if getattr(check, "warm_refinement", False):
+        nwarm += warm_refinement_variants()
     print(f"[{check.prop}] boot+warm {time.time()-t0:.1f}s ({nwarm} signatures)", flush=True)
 
     n = args["n"] or check.budgets[tier]
@@ -615,6 +716,9 @@ def main(check, check_file):
         exit_code = EXIT_HARNESS
     if not args.get("no_evidence"):
         write_evidence(check, tier, seed, stats, wall, n_viol)
+    skipped = {k: v for k, v in stats["cov"].items() if k.startswith(("skipped", "non_sequencing:", "cold_compile:"))}
+    if skipped:
+        print(f"[{check.prop}] skipped/other: " + jdump(skipped)[:1500])
     print(
         f"[{check.prop}] evaluations={stats['evaluations']} distinct={len(stats['shapes'])} "
         f"harness_errors={stats['harness_errors']} new_violations={n_viol} known={sum(stats['known'].values())} "
